@@ -16,10 +16,10 @@ PROP = {'engine': 'wc',
                   'complete: a wrongly rejected pattern costs a `?`, never a wrong prediction'],
  'assumptions': ['patterns and subjects are NUL-free C strings',
                  'C locale (bytes are characters)',
-                 'documented grammar: unescaped literals are plain characters, classes are non-empty and free of ] [ ^ - \\ , . + * ? as members, first '
-                 'character of the body is not an unescaped ~ ` <',
-                 'range_spec_documented: the subject is a canonical decimal below 2^32 (finding F9 outside)',
-                 'class_translation_iff: the translation of a class is the class itself iff no member is one of , . + * ? (finding class outside)'],
+                 'documented grammar: unescaped literals are plain characters, classes are non-empty and free of ] [ ^ - \\ as members (, . + * ? are ordinary '
+                 'members), numbers in a range list are below MUSCLE_NO_LIMIT = 2^32-1, first character of the body is not an unescaped ~ ` <',
+                 'undocumented inputs are mirrored, not judged: empty pattern (matches the empty string although the header speaks of a no-pattern state), '
+                 'dangling backslash, { } ^ $ outside classes, backslash inside a class, range-list numbers >= 2^32-1'],
  'rule': 'patterns printed from random ASTs of the documented grammar over {a,b,0,1} + every metacharacter, each matched against every string of length <= 3 '
          '(thorough: 4) over a per-pattern alphabet, against members of its language and their one-edit neighbours; range lists with boundary subjects; a '
          'malformed stream (must not crash; flags/ToString/uniqueness still compared); EscapeRegexTokens on every string of length <= 3 (thorough: 4) over '
@@ -34,11 +34,11 @@ TEXT = {'design_ref': 'DESIGN.md section 4, C15',
          'alternatives, leading ~): the character loop of SetPattern emits exactly the rendering of the intended POSIX ERE, whose standard semantics equals '
          'the documented meaning; EscapeRegexTokens yields a pattern that denotes exactly its argument; RemoveEscapeChars inverts it; a pattern that '
          'CanWildcardStringMatchMultipleValues calls single-valued denotes exactly its unescaped text, hence two matching strings force the answer yes; '
-         'SetPattern reads a documented range list as exactly the ranges it denotes and Match answers the documented meaning on canonical decimal subjects; '
-         'what Match does on other subjects (finding F9) is characterised exactly.  The model is tied to the C++ code by running both on generated patterns x '
-         'subjects (Match, flags, ToString, escape functions must agree) and by a direct oracle on the real code.',
- 'note': 'glibc regcomp/regexec are trusted to implement POSIX ERE on the emitted expressions (explicit hypothesis GlibcOK, validated differentially).  Known '
-         'deviations kept as corpus triggers and reported by the direct oracle: F9 (range subjects parsed by numeric prefix), class (translation is not '
-         'class-aware; class_translation_iff states exactly when it is harmless).  Former finding tick (leading backtick not escaped) is fixed in /repo; its '
-         "trigger is a regression case.  The IsRegexToken table and SetPattern's backslash-keeping list are regenerated from /repo on every run.  The driver's "
-         'pattern parser is proved sound (not complete).'}
+         'SetPattern reads a documented range list as exactly the ranges it denotes and Match answers the documented meaning on every subject (integers of any '
+         'size); character classes reach regcomp untranslated.  The model is tied to the C++ code by running both on generated patterns x subjects (Match, '
+         'flags, ToString, escape functions must agree) and by a direct oracle on the real code.',
+ 'note': 'glibc regcomp/regexec are trusted to implement POSIX ERE on the emitted expressions (explicit hypothesis GlibcOK, validated differentially).  Three '
+         'deviations found with this check were repaired in /repo and are kept as regression cases (corpus/C15/wc-regress-*.ops) with revert mutants: F9 '
+         '(range subjects parsed by numeric prefix, wrapped at 2^32), class (translation was not class-aware), tick (leading backtick not escaped).  The '
+         "IsRegexToken table and SetPattern's backslash-keeping list are regenerated from /repo on every run.  The driver's pattern parser is proved sound "
+         '(not complete).'}
